@@ -1,4 +1,4 @@
-import Liquid.Nest
+import Proofs.NestLemmas
 /-!
 # Lemmas relating the block-parser machine (`Liquid/Parse.lean`) to the nesting grammar
 (`Liquid/Nest.lean`). Property theorems are in `Proofs/C06.lean`.
@@ -154,26 +154,6 @@ theorem syntaxOf_known {g : Grammar} {n : Bytes} (h : g.known n = true) : ∃ cs
       cases hl : (g.filter (fun d => d.clauses.contains n)).map (·.name) with
       | nil => rw [hl] at hadm; simp at hadm
       | cons a as => exact ⟨.clause n (a :: as), by simp only [List.isEmpty_cons, Bool.false_eq_true, if_false]⟩
-
-theorem OK_end {g : Grammar} {b : Bytes} (ok : g.OK = true) (hb : g.isBlock b = true) :
-    g.isBlock (endPrefix ++ b) = false := by
-  simp only [Grammar.OK, Bool.and_eq_true, List.all_eq_true] at ok
-  unfold Grammar.isBlock at hb
-  rw [List.any_eq_true] at hb
-  obtain ⟨d, hd, hd2⟩ := hb
-  have := ok.1 d hd
-  rw [beq_iff_eq] at hd2
-  rw [← hd2]
-  simpa using this
-
-theorem OK_clause {g : Grammar} {b c : Bytes} (ok : g.OK = true) (h : g.admits b c = true) :
-    g.isBlock c = false ∧ g.isEnd c = false := by
-  simp only [Grammar.OK, Bool.and_eq_true, List.all_eq_true] at ok
-  unfold Grammar.admits at h
-  simp only [List.any_eq_true, Bool.and_eq_true] at h
-  obtain ⟨d, hd, _, hd2⟩ := h
-  have := ok.2 d hd c (by simpa using hd2)
-  simpa using this
 
 /-! ## One step of the machine on a classified token -/
 
@@ -735,3 +715,46 @@ theorem loop_good : ∀ (ts : List Token) (s : PState), loopGood (parseLoop g ch
     | panic w => rw [hst] at this; cases this
     | unmodelled w => rw [hst] at this; cases this
 end loops
+
+/-! ## End of input inside a block / comment / raw; the first error -/
+
+section unterminated
+variable {g : Grammar} {chk : Bytes → Option Cause}
+
+theorem loop_append {s s' : PState} {a : List Token} (b : List Token) (h : parseLoop g chk s a = .ok s') :
+    parseLoop g chk s (a ++ b) = parseLoop g chk s' b := by
+  induction a generalizing s with
+  | nil => simp only [parseLoop] at h; cases h; rfl
+  | cons t ts ih =>
+    simp only [parseLoop, List.cons_append] at h ⊢
+    cases hst : parseStep g chk s t with
+    | ok s1 => rw [hst] at h; exact ih h
+    | err e => rw [hst] at h; cases h
+    | panic w => rw [hst] at h; cases h
+    | unmodelled w => rw [hst] at h; cases h
+
+/-- the interior of a block that has not been closed: a body and clauses, all well nested -/
+def BlockInterior (g : Grammar) (chk : Bytes → Option Cause) (o : Token) (inner : List Token) : Prop :=
+  ∃ (body : List Token) (bns : List AST) (segs : List Seg), Derives g chk body bns ∧
+    (∀ sg ∈ segs, g.isClauseOf o sg.1 = true) ∧ (∀ sg ∈ segs, Derives g chk sg.2.1 sg.2.2) ∧
+    inner = body ++ segToks segs
+
+theorem loop_open_clauses (ok : g.OK = true) {o : Token} (fs : List Frame) :
+    ∀ (segs : List Seg), (∀ sg ∈ segs, g.isClauseOf o sg.1 = true) → (∀ sg ∈ segs, Derives g chk sg.2.1 sg.2.2) →
+    ∀ (f : Frame) (cur : List AST), f.tok = o →
+    ∃ (f' : Frame) (cur' : List AST), f'.tok = o ∧
+      parseLoop g chk ⟨cur, f :: fs, .normal⟩ (segToks segs) = .ok ⟨cur', f' :: fs, .normal⟩
+  | [], _, _, f, cur, hf => ⟨f, cur, hf, rfl⟩
+  | (c, ts, ns) :: r, hc, hd, f, cur, hf => by
+    have hcl := hc _ (List.mem_cons_self ..)
+    rw [← hf] at hcl
+    simp only [segToks]
+    rw [loop_cons_ok (step_clause ok hcl)]
+    have h1 := loop_derives ok (hd _ (List.mem_cons_self ..)) [] (
+      (match f.cur with
+        | none => { f with body := some cur.reverse, cur := some c }
+        | some c0 => { f with clauses := (c0, cur.reverse) :: f.clauses, cur := some c }) :: fs) (segToks r)
+    rw [h1]
+    apply loop_open_clauses ok fs r (fun sg h => hc sg (List.mem_cons_of_mem _ h)) (fun sg h => hd sg (List.mem_cons_of_mem _ h))
+    cases f.cur <;> exact hf
+end unterminated
